@@ -91,6 +91,9 @@ func (in *Interp) mapFind(m *Map, key Value) int {
 	if m == nil {
 		return -1
 	}
+	if in.frozenMaps != nil {
+		in.noteMapRead(m)
+	}
 	ck, conc := concreteKey(key)
 	if conc {
 		if i, ok := m.idx[ck]; ok {
